@@ -183,6 +183,14 @@ class ChildWorld:
             self.scripts[sidx] = st.RDScript(system=system, **kw)
             if real_ts is not None:
                 self.scripts[sidx].t_sample = real_ts
+            if sd.get("via_dict"):
+                # the caller keeps its scripts as dictionaries (or files): what runs is the script read back from its own
+                # dictionary form
+                import json as _json3
+                dd = st.rdscript_to_dict(self.scripts[sidx])
+                if sd["via_dict"] == "json":
+                    dd = _json3.loads(_json3.dumps(dd, default=list))
+                self.scripts[sidx] = st.rdscript_from_dict(dd)
             if sd.get("post_units"):
                 # the caller changes the script's units system after construction (e.g. after loading it): the stored
                 # quantities keep their own units, only the units of the output change
